@@ -188,7 +188,7 @@ func fill(t *rapid.T, rv reflect.Value, depth int) {
 			fill(t, rv.Index(i), depth-1)
 		}
 	case reflect.Map:
-		n := sim.Intn(t, 3, "mlen")
+		n := sim.Intn(t, 6, "mlen")
 		if depth <= 0 {
 			n = 0
 		}
@@ -204,7 +204,7 @@ func fill(t *rapid.T, rv reflect.Value, depth int) {
 		}
 		defer func() { bigIntMode = saved }()
 		for i := 0; i < n; i++ {
-			k := reflect.ValueOf([]string{"k", "a", "key 2"}[sim.Intn(t, 3, "mkey")])
+			k := reflect.ValueOf([]string{"k", "a", "key 2", "b", "K", "é", "zz", ""}[sim.Intn(t, 8, "mkey")])
 			e := reflect.New(rv.Type().Elem()).Elem()
 			fill(t, e, depth-1)
 			if e.Kind() == reflect.Ptr && e.IsNil() {
